@@ -498,6 +498,16 @@ def gen_cases(ctx):
     rng = ctx.rng
     q = ctx.quick
     cases = []
+    # pools
+    for _ in range(140 if q else 3000):
+        cases.append(gen_pool(rng, rng.choice([30, 100, 300, 700])))
+    for kind, esz, n in [(1, 1, 9000), (2, 2, 5000), (0, 3, 3000), (1, 1000, 400), (2, 4096, 200)] + ([] if q else [(1, 1, 30000), (2, 3, 20000)]):
+        cases.append(gen_pool(rng, n, kind, esz))
+    for _ in range(40 if q else 600):
+        cases.append(gen_uc(rng, rng.choice([10, 60, 300])))
+    # lists
+    for _ in range(150 if q else 3000):
+        cases.append(gen_list(rng, rng.choice([15, 60, 200, 500])))
     # hash: full grow/shrink cycles across both resize directions (255 -> 1019 -> 4075 -> 1019 -> 255 slots)
     cyc = [(1, HASH_PARAMS[0], 4200), (0, HASH_PARAMS[4], 4100), (1, HASH_PARAMS[3], 1300), (0, HASH_PARAMS[1], 4090),
            (1, HASH_PARAMS[8], 4100)]
@@ -509,16 +519,6 @@ def gen_cases(ctx):
         cases.append(gen_hash_threshold(rng, base, hp))
     for _ in range(160 if q else 4000):
         cases.append(gen_hash_random(rng, rng.choice([20, 60, 150, 400])))
-    # pools
-    for _ in range(140 if q else 3000):
-        cases.append(gen_pool(rng, rng.choice([30, 100, 300, 700])))
-    for kind, esz, n in [(1, 1, 9000), (2, 2, 5000), (0, 3, 3000), (1, 1000, 400), (2, 4096, 200)] + ([] if q else [(1, 1, 30000), (2, 3, 20000)]):
-        cases.append(gen_pool(rng, n, kind, esz))
-    for _ in range(40 if q else 600):
-        cases.append(gen_uc(rng, rng.choice([10, 60, 300])))
-    # lists
-    for _ in range(150 if q else 3000):
-        cases.append(gen_list(rng, rng.choice([15, 60, 200, 500])))
     return cases
 
 
